@@ -148,6 +148,14 @@ func ExecuteSubscription(p ExecuteParams) chan *Result {
 		for name := range fields {
 			responseNames = append(responseNames, name)
 		}
+		if len(responseNames) != 1 {
+			// Which field's event stream is subscribed to must not depend on map
+			// iteration order; the specification allows exactly one root field.
+			send(&Result{
+				Errors: gqlerrors.FormatErrors(fmt.Errorf("subscription operations must have exactly one root field, found %d", len(responseNames))),
+			})
+			return
+		}
 		responseName := responseNames[0]
 		fieldNodes := fields[responseName]
 		fieldNode := fieldNodes[0]
